@@ -311,6 +311,10 @@ func RuleRegistry(r *Report, c *Codec, dirs []string, rules aspectSet) {
 					badL = "the dispatcher's lookup was not followed to its end (" + pa.Detail + ")"
 					continue
 				}
+				if pa.Outcome == "panic" {
+					badL = "a message makes the dispatcher panic instead of being rejected: " + cut(pa.Detail, 120) + " under [" + cut(pa.State.Describe(), 120) + "]"
+					continue
+				}
 				if pa.Outcome != "return" || len(pa.Results) != 2 {
 					continue
 				}
